@@ -8,8 +8,8 @@ import time
 import traceback
 
 VERIF = os.path.dirname(os.path.dirname(os.path.abspath(__file__)))
-EVIDENCE_DIR = os.path.join(VERIF, "evidence")
-REPLAY_DIR = os.path.join(VERIF, "replays")
+EVIDENCE_DIR = os.environ.get("VERIF_EVIDENCE_DIR") or os.path.join(VERIF, "evidence")
+REPLAY_DIR = os.environ.get("VERIF_REPLAY_DIR") or os.path.join(VERIF, "replays")
 KNOWN = os.path.join(VERIF, "known_findings.json")
 
 
@@ -145,6 +145,8 @@ class Result(object):
         if unlisted:
             os.makedirs(REPLAY_DIR, exist_ok=True)
             for sig, text, replay in unlisted:
+                if isinstance(replay, dict):
+                    replay.setdefault("tier", self.tier)
                 h = hashlib.sha1(sig.encode()).hexdigest()[:10]
                 path = os.path.join(REPLAY_DIR, "%s-%s.json" % (self.pid, h))
                 with open(path, "w") as f:
